@@ -336,6 +336,7 @@ fn run_scenario(exe: &std::path::Path, sc: &Scenario, base: u64, total: u64, job
     let (tx, rx) = mpsc::channel::<Msg>();
     let mut slots: Vec<Option<Slot>> = (0..jobs).map(|_| None).collect();
     let mut pending: Vec<(u64, u64)> = Vec::new(); // remainders of chunks whose worker died
+    let mut skip_rest = false; // set once the scenario keeps killing its workers
     let mut logsums: BTreeMap<u64, u64> = BTreeMap::new();
     let watchdog = Duration::from_secs(sc.watchdog_s);
     loop {
@@ -367,6 +368,7 @@ fn run_scenario(exe: &std::path::Path, sc: &Scenario, base: u64, total: u64, job
             println!("  {}: {} runs killed their worker; remaining runs of this scenario are skipped", full, fatal);
             next = total;
             pending.clear();
+            skip_rest = true;
         }
         match rx.recv_timeout(Duration::from_millis(200)) {
             Ok(Msg::Line(i, pid, line)) => {
@@ -464,7 +466,11 @@ fn run_scenario(exe: &std::path::Path, sc: &Scenario, base: u64, total: u64, job
                         });
                         agg.runs += idx + 1 - slot.start;
                         if idx + 1 < slot.end {
-                            pending.push((idx + 1, slot.end));
+                            if !skip_rest {
+                                if !skip_rest {
+                        pending.push((idx + 1, slot.end));
+                    }
+                            }
                         }
                     }
                 }
